@@ -62,6 +62,9 @@ def run_battery(fq, tier, seed):
 
 def main(argv):
     mode = argv[1]
+    if mode in ("battery", "driver"):
+        from bounded import warmup
+        warmup.run()        # the checks run in a USED interpreter (see bounded/warmup.py)
     if mode == "battery":
         out, tier, seed = argv[2], argv[3], int(argv[4])
         res = []
